@@ -239,6 +239,15 @@ func (a *a25) skipFrameAdded(chain []a25frame, idx int) (lin, bool) {
 			continue
 		}
 		if len(c.Call.Args) > 0 && typeIs(c.Call.Args[0].Type(), modPath, "Event") && typeIs(c.Type(), modPath, "Event") {
+			if sc.Signature.Recv() == nil {
+				// a private helper that takes the event and hands it back prepared
+				// (`printEvent(l.Debug())`): what it adds on the event it returns counts here
+				k, ok := a.retSkip(sc, 0)
+				if !ok {
+					return linBad("the helper " + FnName(sc) + " returns events with differing skipFrame adjustments"), false
+				}
+				total = linAdd(total, linConst(k))
+			}
 			recv = c.Call.Args[0] // chained field method returning its receiver
 			continue
 		}
@@ -296,6 +305,14 @@ func (a *a25) retSkip(f *ssa.Function, depth int) (int64, bool) {
 				return
 			}
 			if len(x.Call.Args) > 0 && typeIs(x.Call.Args[0].Type(), modPath, "Event") && typeIs(x.Type(), modPath, "Event") {
+				if sc.Signature.Recv() == nil && sc != f {
+					k, ok := a.retSkip(sc, depth+1)
+					if !ok {
+						okAll = false
+						return
+					}
+					acc += k
+				}
 				walk(x.Call.Args[0], acc, d+1)
 				return
 			}
